@@ -86,6 +86,8 @@ class Nullness:
             return r
         if isinstance(e, ast.NamedExpr):
             return self.expr(e.value, env)
+        if isinstance(e, ast.Subscript) and isinstance(e.value, ast.Name) and (e.value.id + "[]") in env:
+            return env[e.value.id + "[]"]  # element of a local container into which a MaybeNone value was stored
         if isinstance(e, ast.Call):
             f = e.func
             if isinstance(f, ast.Attribute):
@@ -93,7 +95,8 @@ class Nullness:
                     if len(e.args) == 1 and not e.keywords:
                         return M
                     if len(e.args) == 2:
-                        return self.expr(e.args[1], env)
+                        stored = env.get(f.value.id + "[]", N) if isinstance(f.value, ast.Name) else N
+                        return _join(stored, self.elems(e.args[1], env))
                     return N
                 if f.attr in MAYBE_CALL_ATTRS:
                     return M
@@ -113,6 +116,15 @@ class Nullness:
                     return M
             return N
         return N
+
+    def elems(self, e: ast.AST, env: dict) -> str:
+        """Nullness of a value or, for a tuple / list display, of its worst element (what unpacking it hands out)."""
+        if isinstance(e, (ast.Tuple, ast.List)):
+            r = N
+            for x in e.elts:
+                r = _join(r, self.elems(x, env))
+            return r
+        return self.expr(e, env)
 
     # ------------------------------------------------------------ refinement
     def refine(self, test: ast.AST, positive: bool, env: dict) -> dict:
@@ -153,10 +165,18 @@ class Nullness:
         return env
 
     # ------------------------------------------------------------ dataflow
+    @staticmethod
+    def _container_read(e: ast.AST, env: dict) -> bool:
+        if isinstance(e, ast.Subscript) and isinstance(e.value, ast.Name):
+            return (e.value.id + "[]") in env
+        if isinstance(e, ast.Call) and isinstance(e.func, ast.Attribute) and e.func.attr in ("get", "pop") and isinstance(e.func.value, ast.Name):
+            return (e.func.value.id + "[]") in env
+        return False
+
     def _assign(self, target, value_null: str, env: dict):
         if isinstance(target, ast.Name):
             env[target.id] = value_null
-            for k in [k for k in env if k.startswith(target.id + ".")]:
+            for k in [k for k in env if k.startswith(target.id + ".") or k == target.id + "[]"]:
                 del env[k]
         elif isinstance(target, (ast.Tuple, ast.List)):
             for t in target.elts:
@@ -172,7 +192,15 @@ class Nullness:
             if isinstance(st, ast.Assign):
                 v = self.expr(st.value, env)
                 for t in st.targets:
-                    self._assign(t, v, env)
+                    if isinstance(t, ast.Subscript) and isinstance(t.value, ast.Name):
+                        # D[k] = value : remember the worst thing ever stored in this local container
+                        key = t.value.id + "[]"
+                        env[key] = _join(env.get(key, N), self.elems(st.value, env))
+                    elif isinstance(t, (ast.Tuple, ast.List)) and not isinstance(st.value, (ast.Tuple, ast.List)) and self._container_read(st.value, env):
+                        for el in t.elts:
+                            self._assign(el, v, env)
+                    else:
+                        self._assign(t, v, env)
             elif isinstance(st, ast.AnnAssign) and st.value is not None:
                 self._assign(st.target, self.expr(st.value, env), env)
             elif isinstance(st, ast.AugAssign):
@@ -246,3 +274,36 @@ class Nullness:
 
     def at(self, node: ast.AST, e: ast.AST) -> str:
         return self.expr(e, self.env_at(node))
+
+
+def maybe_none_functions(ctx, rel: str) -> set[str]:
+    """Names of the functions of module `rel` (top level and nested) that can return None on some path (fixpoint over calls by name)."""
+    from .loader import walk_own
+    m = ctx.p.module(rel)
+    maybe: set[str] = set()
+    changed = True
+    rounds = 0
+    while changed and rounds < 6:
+        changed = False
+        rounds += 1
+        for q, fi in m.functions.items():
+            name = q.split(".")[-1]
+            if name in maybe:
+                continue
+            rets = [n for n in walk_own(fi.node) if isinstance(n, ast.Return)]
+            if not rets:
+                continue
+            if any(isinstance(n, (ast.Yield, ast.YieldFrom)) for n in walk_own(fi.node)):
+                continue
+            try:
+                nl = Nullness(fi.node, ctx.cfg(fi), maybe_funcs=set(maybe))
+            except Exception:
+                continue
+            for r in rets:
+                if r.value is None:
+                    continue
+                if nl.at(r, r.value) == M:
+                    maybe.add(name)
+                    changed = True
+                    break
+    return maybe
